@@ -30,20 +30,23 @@ CLAIMED = {
         text="The Geomdl.tla state machine is explored over histories of insert_knot calls (single and multi-direction, admissible counts "
              "and over-insertion) on curves, surfaces and volumes; TLC checks on every transition that the shape function is unchanged "
              "(exact, deg+1 samples per span and direction), the structural claims and the rejection rule; every reachable state is replayed "
-             "into real objects through operations.insert_knot and the object methods with the whole definition compared.",
-        technique="TLA+ state machine (Ops, Geomdl, MC_C04) with action properties checked by TLC; spec->code replay of every history",
+             "into real objects through operations.insert_knot and the object methods with the whole definition compared; in the other direction "
+             "random histories on larger objects and the insert_knot calls of the repository's own tests are recorded and validated by TLC "
+             "against the same actions (Trace_Geomdl).",
+        technique="TLA+ state machine (Ops, Geomdl, MC_C04) with action properties checked by TLC; spec->code replay of every history + code->spec trace validation",
         design="4 C04"),
     "C05": dict(
         text="Histories of refine_knotvector calls (all direction subsets, densities, depth 2 on curves) and helper-level refinement with "
              "explicit/additional knot lists; TLC checks shape preservation and the bisection/multiplicity structure on every transition; "
-             "every state is replayed into real objects.",
-        technique="TLA+ state machine (Ops, Geomdl, MC_C05) with action properties checked by TLC; spec->code replay of every history",
+             "every state is replayed into real objects; random histories and the repository's own refine calls are validated as traces.",
+        technique="TLA+ state machine (Ops, Geomdl, MC_C05) with action properties checked by TLC; spec->code replay of every history + code->spec trace validation",
         design="4 C05"),
     "C06": dict(
         text="Histories (insert | refine) ; remove in which removal is enabled only for exactly removable knots (definition: the reduced "
              "shape re-inserts to the current one). TLC checks that the book-faithful A5.8 transcription inverts A5.1, passes its own "
-             "test and preserves the function; every history is replayed through operations.remove_knot and the object methods.",
-        technique="TLA+ state machine (Ops incl. A5.8 transcription, Geomdl, MC_C06) checked by TLC; spec->code replay of every history",
+             "test and preserves the function; every history is replayed through operations.remove_knot and the object methods; random insert/remove histories "
+             "(strict) and the repository's own remove_knot calls (non-strict: forced removal is structural) are validated as traces.",
+        technique="TLA+ state machine (Ops incl. A5.8 transcription, Geomdl, MC_C06) checked by TLC; spec->code replay of every history + code->spec trace validation",
         design="4 C06"),
     "C07": dict(
         text="For every shape of the lattice and every interior split parameter (inside a span or on a knot of any multiplicity), both domain "
@@ -67,8 +70,10 @@ CLAIMED = {
     "C12": dict(
         text="TLC enumerates every interleaving (depth 3-4) of 12 public mutators and 6 readers on rational/non-rational curves, surfaces and a "
              "volume, and of container reads/additions/element edits; after each history every derived view of the driven object is "
-             "compared with a twin freshly built from the spec's definition; deep-copy independence is checked in both directions.",
-        technique="TLA+ state machine (Geomdl, MC_C12, MC_C12c) enumerated by TLC; spec->code replay of every history against a fresh twin",
+             "compared with a twin freshly built from the spec's definition; deep-copy independence is checked in both directions; the "
+             "CacheDiscipline abstraction (Populates/Effect tables probed from the working tree) is explored completely, i.e. over histories "
+             "of any length; long random histories are validated as traces.",
+        technique="TLA+ state machine (Geomdl, MC_C12, MC_C12c, CacheDiscipline) explored by TLC; replay of every history against a fresh twin + trace validation",
         design="4 C12"),
     "C10": dict(
         text="For every shape and container of the lattice, translation vector, scale factor, axis and rational rotation angle, with and "
